@@ -494,6 +494,9 @@ func checkC14(c *Ctx) {
 	c14Traversal(c)
 	c14RootReplace(c)
 	c14Positions(c)
+	if !c14Nested(c) {
+		return
+	}
 }
 
 func init() {
